@@ -757,6 +757,10 @@ func observed() { atomic.LoadUint32(&appSync) }
 //go:norace
 func (k *K) Announce() { announce() }
 
+// Observe is called by a harness task that starts only after others have announced their end (a later phase
+// of a run): what they did happened before what it does. Deliberately not //go:norace, like Announce.
+func (k *K) Observe() { observed() }
+
 // Cond is a predicate over simulator/harness state, evaluated on the kernel
 // goroutine.
 type Cond interface{ Holds() bool }
